@@ -93,6 +93,7 @@ type eCase struct {
 	Bl    string      `json:"bl,omitempty"`    // "1": SecRequestBodyAccess On, SecRequestBodyLimit 64, SecRequestBodyInMemoryLimit 16
 	Body  string      `json:"body,omitempty"`  // raw request body written before the first ProcessRequestBody (hex field); no body processor is selected
 	Mode  string      `json:"mode"`
+	Dst   [][2]int    `json:"dst,omitempty"` // SecDefaultAction "phase:P,pass,status:S" lines before the rules: (P, S)
 	Rules []eRule     `json:"rules"`
 	Get   [][2]string `json:"get"`
 	Post  [][2]string `json:"post"`
@@ -395,6 +396,14 @@ func renderConfig(c *eCase) string {
 	sb.WriteString("SecRuleEngine " + c.Mode + "\nSecArgumentsLimit 8\n")
 	if c.Bl != "" {
 		sb.WriteString("SecRequestBodyAccess On\nSecRequestBodyLimit 64\nSecRequestBodyInMemoryLimit 16\n")
+	}
+	for _, d := range c.Dst {
+		// phase 2 keeps what the built-in default gives it (log, auditlog)
+		extra := ""
+		if d[0] == 2 {
+			extra = "log,auditlog,"
+		}
+		fmt.Fprintf(&sb, "SecDefaultAction \"phase:%d,%spass,status:%d\"\n", d[0], extra, d[1])
 	}
 	for _, r := range c.Rules {
 		sb.WriteString(renderRule(r))
@@ -944,6 +953,18 @@ func genEngCase(r *gen.R, p engProfile) *eCase {
 	if r.Chance(0.1 + p.flow/2) {
 		c.Rules = append(c.Rules, eRule{ID: 0, Ph: 0, Mk: gen.Field(r.Pick(markers...)), Links: []eLink{{Tg: []eTarget{}, Tfs: []string{}, NA: []eNAct{}}}, Rt: "-", Sa: "-", Sev: -1, Tags: []string{}})
 	}
+	if p.allows > 0 && r.Chance(0.15) {
+		// an unconditional allow in one of the phases 1–4, then in the logging phase a narrower allow followed by
+		// rules that count what still runs (the logging phase keeps evaluating under a bare allow, not under allow:phase)
+		act := func(id, ph int, disr string, na ...eNAct) eRule {
+			return eRule{ID: id, Ph: ph, Mk: "-", Rt: "-", Sa: "-", Sev: -1, Tags: []string{}, Log: true, Audit: true, Disr: disr,
+				Links: []eLink{{Tg: []eTarget{}, Tfs: []string{}, NA: append([]eNAct{}, na...)}}}
+		}
+		inc := eNAct{N: "setvar", K: gen.Field("n"), V: gen.Field("+1")}
+		three := []eRule{act(22, 1+r.Intn(4), r.Pick("allow", "allow", "allow:request")), act(23, 5, r.Pick("allow:phase", "allow:phase", "allow:request", "allow"), inc), act(24, 5, "", inc)}
+		pos := r.Intn(len(c.Rules) + 1)
+		c.Rules = append(c.Rules[:pos], append(three, c.Rules[pos:]...)...)
+	}
 	if p.cache > 0 && r.Chance(0.25) {
 		// three rules of one phase sharing a transformation prefix over one collection: the first two read
 		// the whole collection (positions depend on the runtime's map order), the third one key of it;
@@ -951,7 +972,7 @@ func genEngCase(r *gen.R, p engProfile) *eCase {
 		// another key — so one cache slot (key string, position) holds different values for different rules
 		v := r.Pick("ARGS", "ARGS_GET", "ARGS_POST")
 		ph := 1 + r.Intn(2)
-		t2 := r.Pick("lowercase", "trim", "length", "hexEncode", "uppercase", "urlDecode")
+		t2 := r.Pick("lowercase", "trim", "length", "hexEncode", "uppercase", "urlDecode", "hexDecode")
 		mk := func(id int, key string, tfs []string, op, arg string) eRule {
 			return eRule{ID: id, Ph: ph, Mk: "-", Rt: "-", Sa: "-", Sev: -1, Tags: []string{}, Log: true, Audit: true,
 				Links: []eLink{{Tg: []eTarget{{V: v, K: key, X: []string{}}}, Op: &eOp{N: op, A: gen.Field(arg)}, Tfs: tfs, NA: []eNAct{}}}}
@@ -979,9 +1000,9 @@ func genEngCase(r *gen.R, p engProfile) *eCase {
 		ph := 1 + r.Intn(2)
 		pre := []string{}
 		for k := []int{1, 2, 3, 3, 3, 4, 5, 5, 6, 6, 7, 7, 8}[r.Intn(13)]; k > 0; k-- {
-			pre = append(pre, r.Pick("trim", "removeNulls", "urlDecode", "trimLeft", "trimRight", "replaceNulls", "lowercase", "uppercase", "removeWhitespace", "compressWhitespace"))
+			pre = append(pre, r.Pick("trim", "removeNulls", "urlDecode", "trimLeft", "trimRight", "replaceNulls", "lowercase", "uppercase", "removeWhitespace", "compressWhitespace", "hexDecode"))
 		}
-		last := []string{"lowercase", "uppercase", "length", "hexEncode", "urlEncode", "urlDecode", "removeWhitespace", "trim"}
+		last := []string{"lowercase", "uppercase", "length", "hexEncode", "urlEncode", "urlDecode", "removeWhitespace", "trim", "verifAddA", "verifAddB", "verifAddA", "verifAddB", "hexDecode", "hexDecode"}
 		r.Shuffle(len(last), func(i, j int) { last[i], last[j] = last[j], last[i] })
 		mk := func(id int, tfs []string) eRule {
 			return eRule{ID: id, Ph: ph, Mk: "-", Rt: "-", Sa: "-", Sev: -1, Tags: []string{}, Log: true, Audit: true,
@@ -990,6 +1011,13 @@ func genEngCase(r *gen.R, p engProfile) *eCase {
 		}
 		chain := func(extra ...string) []string { return append(append([]string{}, pre...), extra...) }
 		sib := []eRule{mk(1, chain(last[0])), mk(2, chain(last[1]))}
+		if r.Chance(0.3) {
+			// two transformations registered by a plugin and made by one factory, at the same position of otherwise equal lists
+			sib = []eRule{mk(1, chain("verifAddA")), mk(2, chain("verifAddB"))}
+			for i := range sib {
+				sib[i].Links[0].Op = &eOp{N: r.Pick("endsWith", "contains"), A: gen.Field(r.Pick("A", "B"))}
+			}
+		}
 		if r.Chance(0.5) {
 			sib = append(sib, mk(3, chain(last[r.Intn(2)], last[2])))
 		}
@@ -1212,6 +1240,12 @@ func genEngCase(r *gen.R, p engProfile) *eCase {
 			c.Post = append(c.Post, add...)
 		} else {
 			c.Get = append(c.Get, add...)
+		}
+	}
+	if p.apiOrder > 0 && r.Chance(0.3) {
+		// default actions carrying a status for one or two phases: a rule's own status still wins
+		for _, ph := range r.Perm(4)[:1+r.Intn(2)] {
+			c.Dst = append(c.Dst, [2]int{ph + 1, []int{503, 401, 302, 200, 418}[r.Intn(5)]})
 		}
 	}
 	if r.Chance(0.6 - p.apiOrder) {
